@@ -17,7 +17,7 @@
 
 static const char *const DICT[] = {"and", "array", "do", "else", "false", "func", "if", "is", "or", "proc", "return", "skip", "stop", "then", "true", "val",
                                    "var", "while", "main", ":=", "<=", ">=", "~=", "=", "<", ">", "~", "+", "-", "(", ")", "[", "]", "{", "}", ";", ",",
-                                   "0", "1", "2", "#FF", "'a'", "\"s\"", "\"\xe9z\"", "'\xe9'", "x", "y", "f", "2147483648", "4294967295", "65536"};
+                                   "0", "1", "2", "#FF", "'a'", "\"s\"", "\"\xe9z\"", "'\xe9'", "x", "y", "f", "2147483648", "4294967295", "65536", "2147483647", "#80000000", "#FFFFFFFF", "#FFFFFFFFF", "#", "'\\n'", "'\\q'", "\"a\\nb\\\"\"", "|", "[0]", "0(", "99999999999999999999"};
 
 static char OUT[64] = "fz.bin";
 
